@@ -54,7 +54,28 @@ CLAIMED.update({
 NOT_YET.update({
 })
 
+# units added after the first version of the texts above (rounds 5 and 6 of strengthening)
+EXTRA = {
+    "C01": " Also: a.or_not() driven through its IterParser interface for every K01 grammar a (alone and chained); one_of / none_of / just over every Seq / OrderedSeq container flavour (single token, &T, &[T], [T; N], &[T; N], Vec, LinkedList, HashSet, BTreeSet, &str, String, Range, RangeInclusive, RangeFrom) for all subsets / sequences / ranges over five letters, char and u8.",
+    "C03": " Also: IoInput over readers answering with short reads / Interrupted (15 schedules per case); nested inputs (nested_in must consume its whole nested input unless its parser is lazy()).",
+    "C04": " Also: delimited_by and emitters in the deep elision class; text parsers and regex() in every eliding formulation.",
+    "C05": " Also: the same emission counts with EmptyErr and Cheap; emissions surfacing from nested inputs.",
+    "C08": " Also: recovery strategies whose skip step emits; EmptyErr / Cheap error types; recovery inside / around nested inputs.",
+    "C10": " Also: span_from in the cursor machine; IoInput over faulty readers; &Graphemes and IterInput units.",
+    "C11": " Also: one memoized value used twice (shared through Rc, Clone::clone, Box::clone) in left-recursive grammars; recursive token-tree grammars with memoized() at six placements across nested_in.",
+    "C13": " Also: a clone of a memoized parser used inside the same left-recursive grammar as its original.",
+    "C15": " Also: context providers as iterable parsers and as links of iterable chains; counts of usize::MAX / 4 from the context (static and as a length prefix).",
+    "C16": " Also: lazy().nested_in; recover_with nodes; recursive token-tree grammars with memoized() vs plain on all token trees.",
+    "C17": " Also: secondary errors raised under as_context labels whose labelled parser later fails (complete error list with context frames).",
+    "C18": " Also: closures whose verdict depends on the inspector state they see (try_map_with), inside look-aheads, options, choices and recoveries; padded(); the cursor machine.",
+    "C20": " Also: token-pull budgets for 22 scaled grammar families incl. recovery on runs of unclosed delimiters (with a pull limit); counts of usize::MAX / 4 from the context; primitive matchers over every container flavour incl. unbounded ranges (one known finding: one_of(lo..) with Rich panics on a rejected token, see known_findings.json).",
+}
+
+
 def main():
+    for k, extra in EXTRA.items():
+        eng, tech, text, note, ref = CLAIMED[k]
+        CLAIMED[k] = (eng, tech, text + extra, note, ref)
     props = [json.loads(l) for l in open(os.path.join(ROOT, "properties.jsonl"))]
     checks = []
     na = []
@@ -104,7 +125,7 @@ def main():
         "engines": engines,
         "checks": checks,
         "not_applicable": na,
-        "notes": "Checks rebuild the harness (path dependency on /repo) before every run. known_findings.json lists known:/fixed: entries; see DESIGN.md section 6.",
+        "notes": "Checks rebuild the harness (path dependency on /repo) before every run. known_findings.json lists 13 fixed: entries (fix: commits in /repo) and one known: entry (C20, one_of over an unbounded range with Rich errors); see DESIGN.md section 6.",
     }
     json.dump(m, open(os.path.join(ROOT, "MANIFEST.json"), "w"), indent=1)
     print("MANIFEST.json:", len(checks), "checks,", len(na), "not claimed")
